@@ -6,12 +6,15 @@ PROP = dict(
     specdir="agent", engine="c03",
     mc=[dict(module="AgentTorrent", cfg="MC_AgentTorrent.cfg")],
     trace=dict(module="AgentTorrentTrace", cfg="AgentTorrentTrace.cfg"),
-    nontrivial=lambda recs: any(r.get("ev") == "Start" and r.get("res") in ("conflict", "piececomplete") for r in recs)
-                            and any(r.get("ev") == "Finish" and r.get("res") == "error" for r in recs),
+    nontrivial=lambda recs: any(r.get("ev") == "Check" and r.get("res") in ("conflict", "piececomplete") for r in recs)
+                            and any(r.get("ev") == "TryDirty" and r.get("res") in ("conflict", "piececomplete") for r in recs)
+                            and any(r.get("ev") == "Write" and r.get("res") == "error" for r in recs),
     rule="seeded interleavings of up to three writer goroutines on one real agentstorage.Torrent (3 pieces, last one short); payloads "
-         "good / corrupted / short / long / out-of-range index, pieces repeated; each writer is held inside a gated PieceReader (after "
-         "tryMarkDirty, before the first byte is written) until the driver releases it; Bitfield, Complete, BytesDownloaded after every "
-         "step and the cache file at the end; non-trivial = a concurrent-writer conflict or repeat and a rejected corrupt piece",
-    assumptions=["writers are held only at the PieceReader boundary; the steps after it (write, checksum, status byte, count, move) run "
-                 "uninterrupted per writer on the real code (the design model checks the same grain)"],
+         "good / corrupted / short / long / out-of-range index, pieces repeated, one hot piece; each writer is held at three gates (verif "
+         "hook before tryMarkDirty, gated PieceReader before the first byte is written, verif hook after the piece was counted complete) "
+         "until the driver releases it; Bitfield, Complete, BytesDownloaded after every "
+         "step and the cache file at the end; non-trivial = a conflict or repeat seen by the quick check, one seen only by tryMarkDirty (a writer that lost the race), and a "
+         "rejected corrupt piece",
+    assumptions=["writers are held at the three gates only; the steps between two gates (e.g. write, checksum, status byte, markComplete, "
+                 "count) run uninterrupted per writer on the real code (the design model checks the same grain)"],
 )
